@@ -349,8 +349,8 @@ def c12_6(ctx):
     """no commitment computation is cached under a key that ignores one of its arguments (ControlBlock.merkle_root(script),
     external_pubkey(script), tweaks): a control block asked about the genuine script and then about an altered one must
     recompute, otherwise tampering goes undetected on the second call"""
-    from sa.memo import global_table_caches
-    looked, hits = param_blind_caches(ctx, "taproot")
+    from sa.memo import global_table_caches, param_blind_caches as pbc
+    looked, hits = pbc(ctx, "taproot")
     out = []
     users, ghits = global_table_caches(ctx, "taproot")
     for mod, fn, table, missing, n in ghits:
